@@ -48,7 +48,7 @@ Definition nil_fvs (lf : list sfield) : list fvt := map (fun f => (f, nilv f)) l
 
 (* ---------- (A) Mangle keeps the layer well-formed ---------- *)
 Lemma title_upper c r : is_upper c = true -> title (c :: r) = c :: r.
-Proof. intros H. simpl. unfold to_upper. 
+Proof. intros H. unfold title, to_upper.
   assert (is_lower c = false) as ->; [| reflexivity].
   unfold is_upper, is_lower in *. apply andb_true_iff in H as [H1 H2].
   apply N.leb_le in H1, H2. apply andb_false_iff. left. apply N.leb_gt. lia.
@@ -760,7 +760,7 @@ Proof.
     - exists (pack l2). split; [exact E2 | now apply wf_fields_pack]. }
   assert (Tt : tt = TStruct (pack lfk) []).
   { unfold struct_of in Ht.
-    destruct (negb (is_nil_list ms) && has_dup (map sf_name lfk)); [discriminate|].
+    destruct (has_dup (map sf_name lfk)); [discriminate|].
     destruct (negb (is_nil_list ms) && existsb _ lfk); [discriminate|]. now inversion Ht. }
   subst tt. split.
   - exists lfk. split; [reflexivity|].
